@@ -53,7 +53,9 @@ def fmt_table(table):
 
 def run_training_case(ctx, res, spec, lines, post):
     rng = random.Random(spec['seed'])
-    system = sc.build_system(spec, listing=rng.sample(range(len(spec['comps'])), len(spec['comps'])))
+    recs = {}
+    system = sc.build_system(spec, listing=rng.sample(range(len(spec['comps'])), len(spec['comps'])), recorders=recs)
+    cost_kind = {c['name']: c['cost'] for c in spec['comps']}
     outs = [c['out'] for c in spec['comps']]
     targets = rng.choice([None, [outs[-1]], [outs[0]], rng.sample(outs, rng.randint(1, len(outs)))])
     tg = targets or list(system.outputs().keys())
@@ -70,9 +72,25 @@ def run_training_case(ctx, res, spec, lines, post):
             table = recompute_table(system, tg, num_refine)
             np.random.set_state(st)
         before = {c.name: len(c.active_set) for c in system.components}
+        known = {c.name: set(c.active_set) | set(c.candidate_set) for c in system.components if c.has_surrogate}
+        ncalls = {n: len(rc.calls) for n, rc in recs.items()}
         r = system.refine(targets=targets, num_refine=num_refine, update_bounds=update_bounds)
         after = {c.name: len(c.active_set) for c in system.components}
         info = {'spec': spec, 'targets': targets, 'step': step, 'update_bounds': update_bounds}
+        # the cost booked for the indices created by this step = the cost the model reported for the evaluations it made for
+        # them (the divisor of later indicators is therefore the true cost of the candidate)
+        for c in system.components:
+            if c.has_surrogate and cost_kind[c.name] != 'none':
+                new = (set(c.active_set) | set(c.candidate_set)) - known[c.name]
+                booked = sum(float(c.get_cost(a, b)) for a, b in new)
+                fn = sc.cost_of(cost_kind[c.name])
+                true = sum(fn(al, k) for k, (al, x, y) in enumerate(recs[c.name].calls) if k >= ncalls[c.name])
+                if abs(booked - true) > 1e-9 * max(1.0, true):
+                    res.failures.append({'kind': 'cost-booked-for-new-candidates-differs-from-cost-reported-by-the-model',
+                                         'input': {**info, 'component': c.name, 'new_indices': [list(a) + list(b) for a, b in sorted(new)]},
+                                         'observed': booked, 'expected': true})
+                if new:
+                    res.hit('cost-conservation-checked')
         if uninit:
             # initialisation branch: the first uninitialised component in listing order, zero index
             if r['component'] != uninit[0] or sum(r['alpha']) + sum(r['beta']) != 0:
@@ -155,6 +173,33 @@ def run_termination_case(ctx, res, spec, lines, post):
         lines.append(f'ref.fit {mi} {tol} 0 {1 if cause == "time" else 0} | ' + ' '.join(toks))
         post.append(('fit', info, len(hist)))
         res.hit('termination-' + cause)
+        if cause in ('max_iter', 'time') and not full:
+            # training is continued by further fit() calls (as after loading a checkpoint): every call performs exactly the
+            # number of steps requested of IT, whatever the length of the history it starts from
+            for call in (2, 3):
+                n0 = len(system.train_history)
+                k2 = rng.randint(1, 4)
+                kw2 = dict(kw); kw2.update(max_iter=k2, max_tol=-np.inf); kw2.pop('runtime_hr', None)
+                system.fit(**kw2)
+                hist2 = list(system.train_history)
+                full2 = all(len(c.active_set) == int(np.prod([m + 1 for m in tuple(c.model_fidelity) + tuple(c.max_beta)]))
+                            and len(c.candidate_set) == 0 for c in system.components if c.has_surrogate)
+                info2 = {**info, 'call': call, 'history_before_call': n0, 'max_iter_of_call': k2}
+                if len(hist2) - n0 != k2 and not full2:
+                    res.failures.append({'kind': 'continued-fit-did-not-perform-requested-steps', 'input': info2,
+                                         'signature': nan_sig(system), 'observed': len(hist2) - n0, 'expected': k2})
+                n_act2 = sum(len(c.active_set) for c in system.components if c.has_surrogate)
+                if len(hist2) != n_act2:
+                    res.failures.append({'kind': 'history-entries-differ-from-activations', 'input': info2,
+                                         'observed': len(hist2), 'expected': n_act2})
+                toks2 = ['a:nan' if np.isnan(h['added_error']) else 'a:' + rat_str(h['added_error']) for h in hist2[n0:]]
+                if full2:
+                    toks2.append('n')
+                lines.append(f'ref.fit {n0 + k2} -1000000 {n0} 0 | ' + ' '.join(toks2))
+                post.append(('fit', info2, len(hist2)))
+                res.hit('continued-fit-call')
+                if full2:
+                    break
     res.case(('term', str(spec)), True, {'spec': spec, 'causes': causes})
 
 
